@@ -1,4 +1,5 @@
 (* C16 — Serialized trees deserialize to the same tree.  Property theorems only. *)
+From CsModel Require Extracted.
 From CsModel Require Import Builder BuilderSpec BuilderProofs Serde.
 
 (* the text field of the token event, as typed in the CURRENT source, can be read from every kind of
@@ -52,3 +53,9 @@ Proof.
   exists (fun _ => None), (fun _ => 0), [SvEnter 1 false; SvEnter 2 false; SvLeave]. eexists _, _, _. split; reflexivity.
 Qed.
 Print Assumptions C16_unchecked_refuted.
+
+(* every source fact this property's model depends on was found by the translator in the current
+   source (otherwise the model would be running on the values the proofs were written for) *)
+Theorem C16_facts_extracted : CsModel.Extracted.facts_found_C16 = true.
+Proof. reflexivity. Qed.
+Print Assumptions C16_facts_extracted.
